@@ -69,12 +69,11 @@ def decodeTail (w : Nat) (a : LSt) : LSt :=
   let bytes := a.rest.take w
   let a := a.litPush bytes
   let a := a.consumeN w
-  let a := { a with behind := some bytes.reverse }
-  let a := if a.r == runeError && w == 1 then
-      let (o, l, c) := a.nextPos
-      a.errPass (.utf8 o l c)
-    else a
-  { a with w }
+  let a := { a with behind := some bytes.reverse, w := w }
+  if a.r == runeError && w == 1 then
+    let (o, l, c) := a.nextPos
+    a.errPass (.utf8 o l c)
+  else a
 
 theorem runeDecode_eq (a : LSt) :
     LSt.runeDecode a = decodeTail (decodeRune a.rest).2 (decodeSpec a) := by
@@ -104,27 +103,32 @@ theorem nextPos_eq {s a} (h : R s a) (hal : a.err = none) : s.nextPos = a.nextPo
   rw [(h.alive hal).2, h.f_w, h.f_line, h.f_col]
 
 def decodeFin (w : Nat) (a : LSt) : LSt :=
-  let a := if a.r == runeError && w == 1 then
-      let (o, l, c) := a.nextPos
-      a.errPass (.utf8 o l c)
-    else a
-  { a with w }
+  let a := { a with w := w }
+  if a.r == runeError && w == 1 then
+    let (o, l, c) := a.nextPos
+    a.errPass (.utf8 o l c)
+  else a
 
 def stFin (w : Nat) (s : St) : St :=
-  let s := if s.r == runeError && w == 1 then
-      let (o, l, c) := s.nextPos
-      s.errPass (.utf8 o l c)
-    else s
-  { s with w }
+  let s := { s with w := w }
+  if s.r == runeError && w == 1 then
+    let (o, l, c) := s.nextPos
+    s.errPass (.utf8 o l c)
+  else s
 
 theorem fin_refines {s a} (w : Nat) (h : R s a) (hal : a.err = none) : R (stFin w s) (decodeFin w a) := by
   unfold stFin decodeFin
-  have hr := h.f_r
-  have hp := nextPos_eq h hal
-  simp only [hr, hp]
+  have h' := h.setW w
+  have hal' : ({ a with w := w } : LSt).err = none := hal
+  have hc : (a.r == runeError && w == 1) = (s.r == runeError && w == 1) := by rw [h.f_r]
+  have hp := nextPos_eq h' hal'
+  simp only
+  generalize ({ s with w := w } : St) = s1 at h' hp ⊢
+  generalize ({ a with w := w } : LSt) = a1 at h' hp ⊢
+  rw [hc, hp]
   split
-  · exact (errPass_refines h _).setW w
-  · exact h.setW w
+  · exact errPass_refines h' _
+  · exact h'
 
 theorem runeDecode_refines {s a b f} (h : R s a) (hb : a.behind = none) (hf : s.front = b :: f)
     (hh : a.halted = false) :
